@@ -10,6 +10,7 @@ require (
 )
 
 require (
+	github.com/ulikunitz/xz v0.5.10 // indirect
 	golang.org/x/mod v0.22.0 // indirect
 	golang.org/x/sync v0.10.0 // indirect
 )
